@@ -2,6 +2,7 @@
 
 #include <array>
 #include <cstring>
+#include <limits>
 #include <memory>
 #include <type_traits>
 #include <utility>
@@ -96,6 +97,9 @@ public:
                                         std::is_function_v<T_Pointed>,
                                       char,
                                       T_Pointed>;
+      detail::dynamic_check(
+        count <= std::numeric_limits<size_t>::max() / sizeof(T_El),
+        "unverified_safe_pointer_because element count is too large");
       size_t bytes = sizeof(T_El) * count;
       detail::check_range_doesnt_cross_app_sbx_boundary<T_Sbx>(ret, bytes);
     }
